@@ -33,7 +33,7 @@ CLAIMED = {
    note="Native code generation instead of the BPF back end; XDP attach/driver/NIC are not modelled; 'expired in userspace' means the lease has left the lease table; pools larger than /20 are not materialised; needs CAP_BPF/root to create maps.", ref="§5 C03"),
  "C10": dict(tech=TECH + "interval-overlap model checked step by step and by linearizability (porcupine) for concurrent callers, plus an independent resolver over the flushed NAT log",
    text="Seeded exploration of allocate/deallocate/re-allocate histories from 1-3 concurrent callers (statement-level yields in nat/manager.go) over port-range/block-size configurations incl. non-dividing sizes and the 65535 edge, with the real nat.Logger (all formats, bulk and per-allocation, rotation, flush loop on the virtual clock) writing to a private file that an independent resolver reads back. Sampling, not proof.",
-   note="eBPF maps absent (the Go bookkeeping assigns blocks); log files are real files in a per-run temp dir; rotation compression and age cleanup are not driven.", ref="§5 C10"),
+   note="The subscriber_nat kernel map is present in a quarter of the runs (created by the harness, installed through an overlay accessor; entries can be removed out of band so that the manager's delete fails); the other NAT maps are absent (the Go bookkeeping assigns blocks). Log files are real files in a per-run temp dir with virtual mtimes for the retention pass; rotation compression is not driven.", ref="§5 C10"),
  "C13": dict(tech=TECH + "snapshot equality at full-sync completion, push-order application per connected stream period, convergence after a fault-free bound",
    text="Seeded exploration of add/update/delete histories on the active node with stream disconnects at any byte, half-open streams, lost and late responses, partitions, refused writes of the standby's own store, stalled goroutines, standby crash/restart and changes landing between snapshot and stream attach or at the instant of the attach, using the real HASyncer handlers, SSE reader and back-off over a simulated HTTP transport. Sampling, not proof.",
    note="HTTP/TCP replaced by an in-process RoundTripper that runs the peer's real http.Handler as a scheduler task; active-node crash and a mid-body cut of the full-sync JSON are not modelled; one pusher at a time; a pushed change may be lost only if it could have been in flight when the standby saw the disconnect (same virtual instant, across a partition, within injected stall time, or read by a standby that crashed).", ref="§5 C13"),
